@@ -201,51 +201,49 @@ class MaxSumFactorComputation(DcopComputation):
         """
         self._costs[var_name] = msg.costs
 
-        # Wait until we received costs from all our variables before sending
-        # our own costs (if works without doing that, but results are worse)
-        if len(self._costs) == len(self.factor.dimensions):
-            for v in self.variables:
-                if v.name != var_name:
-                    costs_v = maxsum.factor_costs_for_var(
-                        self.factor, v, self._costs, self.mode
+        # The costs sent to a variable depend on the costs received from all the
+        # *other* variables of the factor: wait until we have them before
+        # sending (waiting for the costs of the target variable itself would
+        # deadlock on trees, where inner variables only speak once spoken to).
+        for v in self.variables:
+            if v.name != var_name and all(
+                o.name in self._costs for o in self.variables if o.name != v.name
+            ):
+                costs_v = maxsum.factor_costs_for_var(
+                    self.factor, v, self._costs, self.mode
+                )
+
+                prev_costs, count = self._prev_messages[v.name]
+
+                # Apply damping to computed costs:
+                if self.damping_nodes in ["factors", "both"]:
+                    costs_v = maxsum.apply_damping(
+                        costs_v, prev_costs, self.damping
                     )
 
-                    prev_costs, count = self._prev_messages[v.name]
+                # Check if there was enough change to send the message
+                if not maxsum.approx_match(
+                    costs_v, prev_costs, self.stability_coef
+                ):
+                    # Not same as previous : send
+                    self.logger.debug(
+                        f"Sending first time from factor {self.name} -> {v.name} : {costs_v}"
+                    )
+                    self.post_msg(v.name, maxsum.MaxSumMessage(costs_v))
+                    self._prev_messages[v.name] = costs_v, 1
 
-                    # Apply damping to computed costs:
-                    if self.damping_nodes in ["factors", "both"]:
-                        costs_v = maxsum.apply_damping(
-                            costs_v, prev_costs, self.damping
-                        )
-
-                    # Check if there was enough change to send the message
-                    if not maxsum.approx_match(
-                        costs_v, prev_costs, self.stability_coef
-                    ):
-                        # Not same as previous : send
-                        self.logger.debug(
-                            f"Sending first time from factor {self.name} -> {v.name} : {costs_v}"
-                        )
-                        self.post_msg(v.name, maxsum.MaxSumMessage(costs_v))
-                        self._prev_messages[v.name] = costs_v, 1
-
-                    elif count < maxsum.SAME_COUNT:
-                        # Same as previous, but not yet sent SAME_COUNT times: send
-                        self.logger.debug(
-                            f"Sending {count} time from variable {self.name} -> {v.name} : {costs_v}"
-                        )
-                        self.post_msg(v.name, maxsum.MaxSumMessage(costs_v))
-                        self._prev_messages[v.name] = costs_v, count + 1
-                    else:
-                        # Same and already sent SAME_COUNT times: no-send
-                        self.logger.debug(
-                            f"Not sending (similar) from {self.name} -> {v.name} : {costs_v}"
-                        )
-
-        else:
-            self.logger.debug(
-                f" Still waiting for costs from all  the variables {self._costs.keys()}"
-            )
+                elif count < maxsum.SAME_COUNT:
+                    # Same as previous, but not yet sent SAME_COUNT times: send
+                    self.logger.debug(
+                        f"Sending {count} time from variable {self.name} -> {v.name} : {costs_v}"
+                    )
+                    self.post_msg(v.name, maxsum.MaxSumMessage(costs_v))
+                    self._prev_messages[v.name] = costs_v, count + 1
+                else:
+                    # Same and already sent SAME_COUNT times: no-send
+                    self.logger.debug(
+                        f"Not sending (similar) from {self.name} -> {v.name} : {costs_v}"
+                    )
 
 
 class MaxSumVariableComputation(VariableComputation):
